@@ -15,6 +15,19 @@ The model FOLLOWS THE CODE.  Three layers:
 3. call side    — `applySync` / `applyAsync` (two textually different application schemes, each with
    its same-package / cross-package branch) and `call` (mutual-exclusion check first).
 
+NOT modelled (stated so that nobody reads more into the theorems than is there):
+* python-level typing of argument values and proto-plus marshalling of well-known types (Timestamp ↔
+  datetime, Duration ↔ timedelta, wrappers ↔ scalars, Struct/Value/ListValue ↔ native values): values are
+  opaque; the harness passes literal Python values of every such kind through both clients (T3);
+* a signature path that goes INTO a marshalled well-known type (`ttl.seconds`): fails in both clients,
+  not generated; paths into unmarshalled raw messages (FieldMask, Status, Policy, Operation) ARE
+  modelled (`rawAssignFails`);
+* oneof clearing (two members of one oneof given together), `Method.flattened_oneof_fields`,
+  `legacy_flattened_fields`, `flattened_field_to_key` (used by samples / unit-test templates only);
+* the ads templates' copy of the block (`gapic/ads-templates/…/client.py.j2`) and the REST transport
+  (it shares the sync macro; only gRPC sessions are run);
+* docstrings rendered from the mapping.
+
 Request values are wire-level trees: a message is a chain `mcons number value rest` kept in
 ascending field-number order by `ins`; repeated and map fields hold opaque items (the application
 code never looks inside them: `get_field` refuses a repeated field in non-terminal position).
@@ -162,6 +175,12 @@ def fieldsMapping (sch : Schema) (crossPkg : Bool) (input : MsgDef) (sigs : List
 def paramList (es : List Entry) : List String :=
   ["self", "request"] ++ es.map Entry.param ++ ["retry", "timeout", "metadata"]
 
+/-- `{% if not method.client_streaming %} … {% else %} requests: Iterator[…] {% endif %}`: a
+client-streaming method takes the request iterator and offers NO flattened parameter, whatever its
+signatures say (and has no application block at all). -/
+def paramListOf (clientStreaming : Bool) (es : List Entry) : List String :=
+  if clientStreaming then ["self", "requests", "retry", "timeout", "metadata"] else paramList es
+
 inductive EmitErr where
   | duplicateParam (p : String)    -- SyntaxError: duplicate argument … in function definition
   | keywordAttr (key : String)     -- SyntaxError: invalid syntax (`request.import.name = …`)
@@ -298,11 +317,17 @@ structure Slot where
   isMap : Bool
   isValue : Bool
   ctor : Option Nat     -- number of the TOP-LEVEL request field called `field.name`, if any (pb2 constructor keyword)
+  rawOwner : Bool       -- the message that OWNS the terminal field is a raw protobuf class (not proto-plus)
+  isMsg : Bool          -- singular message-typed field
 deriving Repr, DecidableEq
+
+def Field.isSingularMessage (f : Field) : Bool :=
+  !f.repeated && (match f.kind with | .message _ => true | _ => false)
 
 def Entry.slot (input : MsgDef) (e : Entry) : Slot :=
   ⟨e.path, e.field.repeated, e.field.isMap, e.field.isValue,
-   (input.fields.find? (fun f => f.pbName == e.param)).map (·.number)⟩
+   (input.fields.find? (fun f => f.pbName == e.param)).map (·.number),
+   !e.last.ownerPP, e.field.isSingularMessage⟩
 
 /-- a flattened key with the argument the caller passed (`none` = left at its default `None`) -/
 abbrev Bound := Slot × Option Val
@@ -371,6 +396,7 @@ def applyAsyncSame (bs : List Bound) (r : Val) : Val :=
 inductive CallErr where
   | valueError            -- "If the `request` argument is set, then none of the individual field arguments should be set."
   | ctorUnknownField      -- pb2 constructor: ValueError: Protocol message X has no "f" field.
+  | attributeError        -- raw protobuf object: "Assignment not allowed to repeated field / message field"
 deriving Repr, DecidableEq
 
 /-- different package: `request = Ident(f.name=f.name, …)` — every keyword is looked up among the
@@ -405,10 +431,21 @@ def ReqArg.isGiven : ReqArg → Bool
 /-- `has_flattened_params`: `len([p for p in flattened_params if p is not None]) > 0` -/
 def hasFlattened (bs : List Bound) : Bool := bs.any (fun b => given b.2)
 
+/-- A same-package request may contain raw protobuf sub-messages (FieldMask, google.rpc.Status, an
+IAM Policy, …): `request.a.b` then IS the protobuf object and protobuf's own assignment rules apply to
+`request.a.b.<field> = x` — scalars may be assigned, a repeated/map field or a message field may not
+(AttributeError).  `.extend` / `.update` are allowed.  So the statement executed for a given key fails:
+sync (assign-all) for a repeated field unless it is the `struct_pb2.Value` extend case, and for a
+singular message; asyncio (assign / update / extend) only for a singular message. -/
+def rawAssignFails (asy : Bool) (b : Bound) : Bool :=
+  given b.2 && b.1.rawOwner &&
+    (if b.1.repeated then (!asy && !b.1.isValue) else b.1.isMsg)
+
 /-- The emitted method up to (not including) the transport call: the request it would send.
 `asy` selects the asyncio client. -/
 def call (samePkg asy : Bool) (req : ReqArg) (bs : List Bound) : Except CallErr Val :=
   if req.isGiven && hasFlattened bs then .error .valueError
+  else if samePkg && bs.any (rawAssignFails asy) then .error .attributeError
   else
     match samePkg, asy, req with
     -- same package, sync: `if not isinstance(request, T): request = T(request); <apply>`
